@@ -29,6 +29,8 @@ def run_shellapi(ctx):
                 continue
             if c.callee.startswith(("std::", "core::", "alloc::", "<std::", "<core::")) and not c.callee.startswith("<simplesl"):
                 continue        # moving / dropping / wrapping the value: no access to its names
+            if bin_.body(c.callee) is not None:
+                continue        # a function of the front end itself: its own calls are judged where they are made
             n += 1
             key = "shellapi:%s|%s" % (b.id.split("::{closure")[0], c.callee)
             if c.callee in SHELL_API:
@@ -107,6 +109,22 @@ def _from_param(b, o, param, depth=0):
     return rv["k"] == "use" and _from_param(b, rv["o"], param, depth + 1)
 
 
+def _builds_on_success(lib, fid, depth):
+    """a private helper of array_repeat that passes through Array::new_repeat on every path to a success value"""
+    hb = lib.body(fid)
+    if hb is None or depth > 2 or not fid.startswith("instruction::array_repeat::") or "{closure" in fid:
+        return False
+    from .guard import success_blocks
+    from ..model import aggregates
+    if any(c.callee.endswith(("Array::new_with_type", "Array::new", "Array::from")) for c in hb.calls) or list(aggregates(hb, "variable::array::Array")):
+        return False
+    g = {c.bb for c in hb.calls if c.callee == NEW_REPEAT or (c.callee != fid and _builds_on_success(lib, c.callee, depth + 1))}
+    if not g:
+        return False
+    reach = hb.reachable(0, avoid=g)
+    return not any(s in reach for s in (success_blocks(hb) or hb.return_blocks()))
+
+
 def run_repeat(ctx):
     res = RuleResult("R-REPEAT", "`[v; n]` is built - when run and when folded - by Array::new_repeat, and new_repeat hands its value and "
                                  "its length unchanged to std::iter::repeat_n (or vec![v; n]) and collects the result as it comes: exactly "
@@ -137,7 +155,7 @@ def run_repeat(ctx):
         key = "repeat:%s" % fid
         other = [c.callee for c in b.calls if c.callee.endswith(("Array::new_with_type", "Array::new", "Array::from"))] + \
                 ["variable::Array{..}" for _ in aggregates(b, "variable::array::Array")]
-        gates = {c.bb for c in b.calls if c.callee == NEW_REPEAT}
+        gates = {c.bb for c in b.calls if c.callee == NEW_REPEAT or _builds_on_success(lib, c.callee, 0)}
         succ = success_blocks(b) or b.return_blocks()
         if other:
             res.bad(key, "%s builds the repeated array itself (%s) instead of through Array::new_repeat" % (fid, other[0]), b.where())
